@@ -591,17 +591,36 @@ def gen_edits(rng, r, n):
         di = rng.randrange(nd)
         D = r["defs"][di]
         k = rng.random()
-        if k < 0.3 and D["children"]:
+        if k < 0.2 and D["children"]:
             ops.append(["rm_child", di, rng.randrange(len(D["children"]))])
-        elif k < 0.45 and D["ports"]:
+        elif k < 0.3 and D["ports"]:
             ops.append(["rm_port", di, rng.randrange(len(D["ports"]))])
-        elif k < 0.6 and D["cables"]:
+        elif k < 0.4 and D["cables"]:
             ops.append(["rm_cable", di, rng.randrange(len(D["cables"]))])
-        elif k < 0.85 and D["children"] and di > 0:
+        elif k < 0.58 and D["children"] and di > 0:
             ops.append(["repoint", di, rng.randrange(len(D["children"])),
                         rng.choice([None] + list(range(di)) + list(range(di)))])
-        elif k < 0.93:
+        elif k < 0.64:
             ops.append(["rm_def", di])
+        elif k < 0.94:
+            # MOVE something to another parent (remove, then add elsewhere): the old references must die
+            dj = rng.randrange(nd)
+            E = r["defs"][dj]
+            kind = rng.choice(["wire", "wire", "pin", "pin", "child", "port", "cable"])
+            if kind == "wire" and D["cables"] and E["cables"]:
+                ci = rng.randrange(len(D["cables"]))
+                if D["cables"][ci]["wires"]:
+                    ops.append(["mv_wire", di, ci, rng.randrange(len(D["cables"][ci]["wires"])), dj,
+                                rng.randrange(len(E["cables"]))])
+            elif kind == "pin" and D["ports"] and E["ports"]:
+                pi = rng.randrange(len(D["ports"]))
+                ops.append(["mv_pin", di, pi, rng.randrange(D["ports"][pi]["width"]), dj, rng.randrange(len(E["ports"]))])
+            elif kind == "child" and D["children"]:
+                ops.append(["mv_child", di, rng.randrange(len(D["children"])), dj])
+            elif kind == "port" and D["ports"]:
+                ops.append(["mv_port", di, rng.randrange(len(D["ports"])), dj])
+            elif kind == "cable" and D["cables"]:
+                ops.append(["mv_cable", di, rng.randrange(len(D["cables"])), dj])
         elif D["cables"]:
             ci = rng.randrange(len(D["cables"]))
             if D["cables"][ci]["wires"]:
@@ -631,6 +650,37 @@ def apply_edit(b, handles, op):
             k.reference = None if op[3] is None else b.defs[op[3]]
         elif op[0] == "rm_def":
             d.library.remove_definition(d)
+        elif op[0] == "mv_wire":
+            w = H["wires"][op[2]][op[3]]
+            tgt = handles[op[4]]["cables"][op[5]]
+            if w.cable is not None:
+                w.cable.remove_wire(w)
+            tgt.add_wire(w)
+        elif op[0] == "mv_pin":
+            q = H["pins"][op[2]][op[3]]
+            tgt = handles[op[4]]["ports"][op[5]]
+            if q.port is not None:
+                q.port.remove_pin(q)
+            tgt.add_pin(q)
+        elif op[0] == "mv_child":
+            k = H["children"][op[2]]
+            tgt = b.defs[op[3]]
+            r = k.reference
+            if r is not None and (r is tgt or b.defs.index(r) >= op[3]):
+                return "skipped-would-cycle"
+            if k.parent is not None:
+                k.parent.remove_child(k)
+            tgt.add_child(k)
+        elif op[0] == "mv_port":
+            x = H["ports"][op[2]]
+            if x.definition is not None:
+                x.definition.remove_port(x)
+            b.defs[op[3]].add_port(x)
+        elif op[0] == "mv_cable":
+            x = H["cables"][op[2]]
+            if x.definition is not None:
+                x.definition.remove_cable(x)
+            b.defs[op[3]].add_cable(x)
         return "ok"
     except Exception as e:  # noqa
         return exc_family(e)
@@ -881,7 +931,8 @@ def check_c11(res, sess, recipe, rng, tier_scale, edits=None, tag="gen"):
     # ---- edits: validity / uniqueness of references obtained before ----
     if edits:
         handles = [{"children": list(d.children), "ports": list(d.ports), "cables": list(d.cables),
-                    "wires": [list(c.wires) for c in d.cables]} for d in b.defs]
+                    "wires": [list(c.wires) for c in d.cables], "pins": [list(p.pins) for p in d.ports]}
+                   for d in b.defs]
         done = []
         for op in edits:
             oc = apply_edit(b, handles, op)
@@ -927,6 +978,29 @@ def check_c11(res, sess, recipe, rng, tier_scale, edits=None, tag="gen"):
                     res.spec_failure(usig or "HRef.is_unique.after-edit.disagrees-with-netlist", inp,
                                      "is_unique=%r expected=%r" % (iu, eu))
                 res.dist("c11.after-edit.%s" % ("valid" if ev else "invalid"))
+            # the held references as query roots after the edit: a dead path answers nothing, a live one
+            # answers like the model on the re-dumped design
+            qs2, meta2 = [], []
+            for k, h in hs[: tier_scale[1]]:
+                kk = "wirelike" if (k in elab2.kset["hwire"] or k in elab2.kset["hcable"]) else (
+                    "pinlike" if (k in elab2.kset["hpin"] or k in elab2.kset["hport"]) else "other")
+                for f in ("hinst", "hport", "hpin", "hcable", "hwire"):
+                    if kk == "wirelike" and f in ("hpin", "hport"):
+                        continue   # runs over wire.pins: after remove_child/remove_port those may dangle (WFNet is C12's premise)
+                    if kk == "pinlike" and f in ("hcable", "hwire"):
+                        continue   # pin.wire side of a removed pin: same remark
+                    qs2.append({"f": f, "root": {"k": "href", "h": list(k)}, "rec": False, "sel": "I"})
+                    meta2.append((k, h, f))
+            ans2 = sess.ask(qs2)
+            for (k, h, f), a in zip(meta2, ans2):
+                inp = {"recipe": recipe, "edits": [list(x) for x in done], "query": {"f": f, "root": {"k": "href", "h": list(k)}, "rec": False}}
+                res["evaluations"] += 1
+                impl, _ = impl_query(sdn, f, h, False, "I", ids)
+                if k not in elab2.all_valid and impl != []:
+                    res.spec_failure("get_%ss.after-edit.dead-reference-as-root-answers" % f, inp, repr(impl)[:200])
+                if impl != sorted(a["v"]):
+                    res.corr_mismatch("Spydr.Hier.%s vs spydrnet.get_%ss (held reference as root after edits)" % (f, f),
+                                      inp, impl, sorted(a["v"]))
 
 
 # --------------------------------------------------------------------------------------------
@@ -950,23 +1024,102 @@ def wire_has_port_pin(w):
     return any(not isinstance(x, OuterPin) for x in w.pins)
 
 
-def check_c12(res, sess, recipe, rng, tier_scale, tag="gen", only=None):
-    import spydrnet as sdn
+def all_pinrefs(recipe, di):
+    """pin references of definition di in recipe coordinates"""
+    D = recipe["defs"][di]
+    out = [["p", pi, bb] for pi, P in enumerate(D["ports"]) for bb in range(P["width"])]
+    for ki, c in enumerate(D["children"]):
+        if c["ref"] is not None:
+            for pi, P in enumerate(recipe["defs"][c["ref"]]["ports"]):
+                out.extend(["c", ki, pi, bb] for bb in range(P["width"]))
+    return out
+
+
+def pin_obj(b, di, q):
+    d = b.defs[di]
+    if q[0] == "p":
+        return d.ports[q[1]].pins[q[2]]
+    k = d.children[q[1]]
+    return k.pins[k.reference.ports[q[2]].pins[q[3]]]
+
+
+def gen_pin_edit(rng, b):
+    """one connectivity edit on the live netlist, in recipe coordinates: disconnect a pin, connect a
+    free pin, or move a pin to another wire of the same definition"""
+    r = b.recipe
+    cands = []
+    for di, D in enumerate(r["defs"]):
+        wires = [(ci, wi) for ci, C in enumerate(D["cables"]) for wi in range(len(C["wires"]))]
+        if not wires:
+            continue
+        for q in all_pinrefs(r, di):
+            cands.append((di, q, wires))
+    if not cands:
+        return None
+    for _ in range(20):
+        di, q, wires = rng.choice(cands)
+        try:
+            pin = pin_obj(b, di, q)
+        except Exception:  # noqa
+            continue
+        ci, wi = rng.choice(wires)
+        if pin.wire is None:
+            return ["conn", di, q, ci, wi]
+        if rng.random() < 0.4:
+            return ["disc", di, q]
+        return ["move", di, q, ci, wi]
+    return None
+
+
+def apply_pin_edit(b, op):
+    try:
+        pin = pin_obj(b, op[1], op[2])
+        if op[0] in ("disc", "move") and pin.wire is not None:
+            pin.wire.disconnect_pin(pin)
+        if op[0] in ("conn", "move"):
+            b.defs[op[1]].cables[op[3]].wires[op[4]].connect_pin(pin)
+        return "ok"
+    except Exception as e:  # noqa
+        return exc_family(e)
+
+
+def check_c12(res, sess, recipe, rng, tier_scale, tag="gen", only=None, pin_edits=None, n_gen_edits=0):
+    """first pass on the netlist as built; then connectivity edits (given, or generated) each followed by
+    the same queries again IN THE SAME PROCESS on the same objects, against the model on the re-dumped
+    design and the union-find oracle recomputed on the edited netlist"""
     try:
         b = Built(recipe)
     except Exception:
         res.dist("recipe-not-buildable")
         return
     ids = Ids()
+    done = []
+    if not _c12_pass(res, sess, b, ids, recipe, rng, tier_scale, tag, only, done):
+        return
+    n = len(pin_edits) if pin_edits is not None else n_gen_edits
+    for j in range(n):
+        op = pin_edits[j] if pin_edits is not None else gen_pin_edit(rng, b)
+        if op is None:
+            break
+        oc = apply_pin_edit(b, op)
+        done.append(list(op))
+        res.dist("c12.pin-edit.%s.%s" % (op[0], oc))
+        if not _c12_pass(res, sess, b, ids, recipe, rng, tier_scale, tag, only, done):
+            return
+
+
+def _c12_pass(res, sess, b, ids, recipe, rng, tier_scale, tag, only, done):
+    import spydrnet as sdn
     design, dpos = dump(b.nl, ids)
     st = sess.load(design)
     if not (st["wf"] and st["wfnet"] and st["sorted"]):
-        res["obligations"].append(("hier: dumped design satisfies WF, WFNet and Sorted", False, json.dumps(recipe)[:1500]))
-        return
+        res["obligations"].append(("hier: dumped design satisfies WF, WFNet and Sorted", False,
+                                   json.dumps({"recipe": recipe, "pin_edits": done})[:1500]))
+        return False
     elab = Elab(b.nl, ids)
     if elab.overflow:
         res.dist("too-big-skipped")
-        return
+        return False
     nets = Nets(elab, ids)
     depth = max(len(p) for p in elab.inst_paths) if elab.inst_paths else 0
     multi = sum(1 for c in nets.classes.values() if len(c) >= 2)
@@ -975,11 +1128,15 @@ def check_c12(res, sess, recipe, rng, tier_scale, tag="gen", only=None):
         lv = set(len(k) for k in c)
         if len(lv) >= 3:
             deep += 1
-    res.case(stable_hash(recipe), multi >= 1 and depth >= 3)
-    res.dist("c12.depth=%d" % min(depth, 6))
-    res.dist("c12.nets-spanning>=3-levels" if deep else "c12.nets-spanning<3-levels")
-    res.sample({"recipe_defs": len(recipe["defs"]), "hwires": len(nets.parent), "nets": len(nets.classes),
-                "multi_wire_nets": multi, "tag": tag})
+    if not done:
+        res.case(stable_hash(recipe), multi >= 1 and depth >= 3)
+        res.dist("c12.depth=%d" % min(depth, 6))
+        res.dist("c12.nets-spanning>=3-levels" if deep else "c12.nets-spanning<3-levels")
+        res.sample({"recipe_defs": len(recipe["defs"]), "hwires": len(nets.parent), "nets": len(nets.classes),
+                    "multi_wire_nets": multi, "tag": tag})
+    else:
+        res.case(stable_hash([recipe, done]), multi >= 1)
+        res.dist("c12.pass-after-%d-pin-edits" % len(done))
     from spydrnet.util.hierarchical_reference import HRef as _H
 
     def _all(kind):
@@ -1028,7 +1185,7 @@ def check_c12(res, sess, recipe, rng, tier_scale, tag="gen", only=None):
                 queries.append({"f": f, "root": rj, "rec": False, "sel": "I"})
                 meta.append((kind, h, rj, occ, f, "I"))
     answers = sess.ask(queries)
-    inp_base = {"recipe": recipe}
+    inp_base = {"recipe": recipe, "pin_edits": [list(x) for x in done]} if done else {"recipe": recipe}
     from spydrnet.util.hierarchical_reference import HRef as _HRef
     for (kind, h, rj, occ, f, sel), q, a in zip(meta, queries, answers):
         if only and (f, sel) != only:
@@ -1151,6 +1308,7 @@ def check_c12(res, sess, recipe, rng, tier_scale, tag="gen", only=None):
                 sig = SIG_ALL_WIRE if blind else "get_hwires.ALL.members-of-one-net-answer-differently"
                 res.spec_failure(sig, dict(inp_base, starts=[list(outs[0][0]), list(k)]), "answers differ inside one net")
                 break
+    return True
 
 
 # --------------------------------------------------------------------------------------------
@@ -1238,7 +1396,8 @@ def _run_one(pid, res, sess, item, rng, tier):
     if pid == "C11":
         check_c11(res, sess, item["recipe"], rng, scale, edits=item.get("edits"), tag=item.get("tag", "gen"))
     else:
-        check_c12(res, sess, item["recipe"], rng, scale, tag=item.get("tag", "gen"))
+        check_c12(res, sess, item["recipe"], rng, scale, tag=item.get("tag", "gen"),
+                  pin_edits=item.get("pin_edits"), n_gen_edits=item.get("n_pin_edits", 0))
 
 
 def _shrink_failures(pid, res, sess, rng, tier, t_end):
@@ -1261,14 +1420,15 @@ def _shrink_failures(pid, res, sess, rng, tier, t_end):
             continue
         n_shrunk += 1
         edits = s["input"].get("edits")
+        pe = s["input"].get("pin_edits")
 
-        def fails(r2, sig=sig, edits=edits):
+        def fails(r2, sig=sig, edits=edits, pe=pe):
             tmp = shard.ShardResult()
             e2 = [e[:-1] if isinstance(e[-1], str) else e for e in edits] if edits else None
             if pid == "C11":
                 check_c11(tmp, sess, r2, rng, (25, 10), edits=e2)
             else:
-                check_c12(tmp, sess, r2, rng, (25, 10))
+                check_c12(tmp, sess, r2, rng, (25, 10), pin_edits=pe)
             return any(x["signature"] == sig for x in tmp["spec"])
         small = shrink(rec0, fails, budget_s=min(12.0, max(1.0, t_end - time.time())))
         tmp = shard.ShardResult()
@@ -1276,7 +1436,7 @@ def _shrink_failures(pid, res, sess, rng, tier, t_end):
         if pid == "C11":
             check_c11(tmp, sess, small, rng, (25, 10), edits=e2)
         else:
-            check_c12(tmp, sess, small, rng, (25, 10))
+            check_c12(tmp, sess, small, rng, (25, 10), pin_edits=pe)
         hit = [x for x in tmp["spec"] if x["signature"] == sig]
         out.append(min(hit, key=lambda x: len(json.dumps(x["input"]))) if hit else s)
     # keep the occurrences for counting, but lead with the shrunk representatives
@@ -1304,6 +1464,8 @@ def _shard(pid, seed, idx, n_cases, tier, t_budget, items=None):
                 it = {"recipe": r}
                 if pid == "C11" and rng.random() < 0.7:
                     it["edits"] = gen_edits(rng, r, rng.randint(1, 4))
+                if pid == "C12" and rng.random() < 0.6:
+                    it["n_pin_edits"] = rng.randint(1, 3)
                 _run_one(pid, res, sess, it, rng, tier)
         if res["spec"]:
             _shrink_failures(pid, res, sess, rng, tier, time.time() + 40)
@@ -1332,6 +1494,7 @@ def _corpus_items(pid):
         if "recipe" in inp:
             out.append({"recipe": inp["recipe"], "edits": [e[:-1] if e and isinstance(e[-1], str) else e
                                                            for e in inp.get("edits", [])] or None,
+                        "pin_edits": inp.get("pin_edits"),
                         "tag": "corpus:" + os.path.basename(p)})
     return out
 
@@ -1348,10 +1511,11 @@ def run(ctx):
                 "non-zero lower index; unnamed and same-named items; nets of only child pins, only port pins, "
                 "nothing) built through the public API; " +
                 ("every element and every returned reference as root x 5 queries x recursive on/off; then 1-4 "
-                 "edits (remove child/port/cable/wire, re-point, remove definition) re-checking is_valid/"
-                 "is_unique of all references held" if pid == "C11" else
+                 "edits (remove child/port/cable/wire, re-point, remove definition, MOVE a wire/pin/child/port/cable to "
+                 "another parent) re-checking is_valid/is_unique of all references held and using them as roots again" if pid == "C11" else
                  "every hierarchical wire/pin/cable/port as start x {ALL,INSIDE,OUTSIDE,BOTH} for get_hwires/"
-                 "get_hcables, get_hpins/get_hports of every hierarchical wire/cable") +
+                 "get_hcables, get_hpins/get_hports of every hierarchical wire/cable; then 1-3 connectivity edits "
+                 "(connect / disconnect / move a pin) each followed by the same queries in the same process") +
                 "; a case is one recipe, distinct by content, non-trivial when elaborated depth >= 3 or a "
                 "definition is reached by two paths" + ("" if pid == "C11" else " and a net joins >= 2 hierarchical wires"))
     ctx.assumptions = [
@@ -1373,7 +1537,8 @@ def run(ctx):
         items = []
         if "recipe" in inp:
             items = [{"recipe": inp["recipe"], "edits": [e[:-1] if e and isinstance(e[-1], str) else e
-                                                         for e in inp.get("edits", [])] or None, "tag": "replay"}]
+                                                         for e in inp.get("edits", [])] or None,
+                      "pin_edits": inp.get("pin_edits"), "tag": "replay"}]
         shard.run_shards(ctx, _shard, [(pid, ctx.seed, 0, 0, ctx.tier, 120, items), (pid, ctx.seed, 1, 0, ctx.tier, 120, [])])
         return
     corpus = _corpus_items(pid)
